@@ -17,6 +17,19 @@ ASSUMPTIONS = ["malloc/realloc succeed (allocation failure is property C08)",
 TRUSTED = ["glibc vsnprintf/vasprintf, memcpy, memset, realloc"]
 
 
+MANIFEST = dict(
+   text="Lean 4 theorems over a checked-C model of printbuf.c: for every buffer state satisfying the representation invariant and every "
+        "request (any size/offset/fill/format output), memappend, the memappend_fast macro, memset, sprintbuf and reset do not fault (no int "
+        "overflow, no access outside the allocation), keep the invariant, refine the byte-array specification (ByteBuf), leave appended text "
+        "NUL-terminated inside the allocation, and refuse with EFBIG leaving the buffer unchanged exactly in the INT_MAX band; lifted by induction "
+        "to every finite history (run_refines). The model is tied to the code by constants regenerated from printbuf.c on every run and by a "
+        "differential run of model, spec and the ASan/UBSan-built implementation on generated histories.",
+   note="Trusted: Lean kernel + propext/Classical.choice/Quot.sound; tools/extract; the differential harness; glibc vsnprintf/realloc; allocation "
+        "success (failure is C08). The model is hand-written: theorems are about the model, the correspondence run is testing.",
+   technique="Lean 4 proof (invariant + refinement, induction over histories) + model/implementation correspondence run",
+   design="6/C19")
+
+
 class Sim:
     """spec-level simulation used only to aim the generator (not an oracle)"""
     def __init__(self):
